@@ -251,6 +251,15 @@ def rule_deleg(ctx, rep):
                 rep.bad("R-DELEG", key, "%s::%s delegates to `%s` on the payload instead of `%s` (at %s)" % (tr.split("::")[-1], m, l["method"], m, l["loc"]), F.loc(b), tag)
                 continue
             rep.ok("R-DELEG", key, cfg=tag)
+            if hn and not (tr == "core::cmp::PartialEq" and hn in ("Arc", "ArcUnion")):  # ArcUnion: mixed variants are unequal without looking (C12 R-ARMS)
+                # on a handle the answer is the payload's on *every* path: no early return that skips the delegate (a
+                # "nothing to hash for zero-sized values" shortcut changes the hash of `""`, `[]`, ...). Arc's eq/ne carry the
+                # one licensed shortcut (R-LICENCE).
+                miss = _path_without_delegate(F, L, b, tr)
+                if miss is None:
+                    rep.ok("R-DELEG-ALL", key, cfg=tag)
+                else:
+                    rep.bad("R-DELEG-ALL", key, "%s::%s on %s can return without having asked the payload (a path reaches the return at line %s without passing any call that ends in `%s` on the value): for some values the handle answers differently from the value it holds" % (tr.split("::")[-1], m, st["s"], miss, tr), F.loc(b), tag)
             if hn and len(rep.samples) < 6 and tag == "default":
                 rep.sample({"rule": "R-DELEG", "impl": key, "payload_leaves": sorted(set("%s::%s on %s" % (l["trait"].split("::")[-1], l["method"], F.ts(l["self"])) for l in same))[:4]})
         # licence shape of Arc::eq / Arc::ne
@@ -263,6 +272,51 @@ def rule_deleg(ctx, rep):
                     rep.bad("R-LICENCE", b["key"], why, F.loc(b), tag)
     rep.floor("R-DELEG", 35, "comparison/hash/format methods on handle and header-slice types (default configuration: 40+)")
     rep.floor("R-LICENCE", 2, "Arc::eq and Arc::ne")
+    rep.floor("R-DELEG-ALL", 20, "handle-level comparison/hash/format methods")
+
+
+def _path_without_delegate(F, L, b, tr):
+    """Line of a return of body b reachable from its entry without passing a call that (transitively) reaches trait `tr` on a
+    payload-like type; None if every returning path delegates."""
+    B = cfg.Body(b)
+    cut = set()
+    for bi, t in B.calls():
+        if t.get("callee_trait") == tr and t.get("callee_self") is not None and payload_like(F, t["callee_self"]):
+            r = t.get("resolved")
+            if not (isinstance(r, dict) and r["def"] in F.bodies):
+                cut.add(bi)
+                continue
+        cands = set()
+        r = t.get("resolved")
+        if isinstance(r, dict):
+            if r["def"] in F.bodies:
+                cands.add(r["def"])
+            args = r["args"]
+        else:
+            args = t.get("callee_args") or []
+            if t.get("callee") in F.bodies:
+                cands.add(t["callee"])
+        for a in list(args) + [{"t": x} for x in t.get("arg_tys", [])]:
+            if "t" in a:
+                for x in F.walk(a["t"]):
+                    tt = F.ty(x)
+                    if tt["k"] in ("closure", "fndef") and tt["def"] in F.bodies:
+                        cands.add(tt["def"])
+        for c in cands:
+            leaves, _pe, _seen = L.reach(c)
+            own = L.direct(c) if False else []
+            if any(l["trait"] == tr and payload_like(F, l["self"]) for l in leaves):
+                cut.add(bi)
+                break
+    # formatting through `&dyn Debug` (debug_struct().field(..)) counts as a delegate where the unsizing happens
+    for bi, bl in enumerate(b["blocks"]):
+        for st_ in bl["stmts"]:
+            if st_["k"] == "assign" and st_["rv"]["k"] == "cast" and "Unsize" in st_["rv"]["cast"]:
+                cut.add(bi)
+    for bi, bl in enumerate(b["blocks"]):
+        if bl["term"]["k"] == "return" and bi in B.reach(0, normal_only=True, avoid=cut) and bi not in cut:
+            return bl["term"]["span"]["line"]
+    return None
 
 
 def _ref_rule(F, b, rep, tag):
@@ -336,57 +390,7 @@ def _licence_shape(F, b, const_on_same):
 
 
 # ---------------------------------------------------------------------------------------------- R-FOOT
-def resolve(F, t):
-    idx, env = t
-    node = F.ty(idx)
-    seen = 0
-    while node["k"] == "param" and env and node["name"] in env and seen < 20:
-        idx, env = env[node["name"]]
-        node = F.ty(idx)
-        seen += 1
-    return idx, env
-
-
-def unify(F, p_idx, t, bind):
-    pn = F.ty(p_idx)
-    if pn["k"] == "param":
-        bind.setdefault(pn["name"], t)
-        return True
-    idx, env = resolve(F, t)
-    tn = F.ty(idx)
-    if tn["k"] != pn["k"]:
-        return False
-    k = pn["k"]
-    if k == "adt":
-        if pn["path"] != tn["path"]:
-            return False
-        pa = [a["t"] for a in pn["args"] if "t" in a]
-        ta = [a["t"] for a in tn["args"] if "t" in a]
-        if len(pa) != len(ta):
-            return False
-        return all(unify(F, x, (y, env), bind) for x, y in zip(pa, ta))
-    if k in ("ref", "ptr", "slice", "array"):
-        return unify(F, pn["t"], (tn["t"], env), bind)
-    if k == "tuple":
-        return len(pn["ts"]) == len(tn["ts"]) and all(unify(F, x, (y, env), bind) for x, y in zip(pn["ts"], tn["ts"]))
-    return pn["s"] == tn["s"]
-
-
-def specificity(F, p_idx):
-    return sum(1 for x in F.walk(p_idx) if F.ty(x)["k"] != "param")
-
-
-def find_impl(F, trait, t):
-    best = None
-    for im in F.impls:
-        if im.get("trait") != trait:
-            continue
-        bind = {}
-        if unify(F, im["self_ty"], t, bind):
-            sp = specificity(F, im["self_ty"])
-            if best is None or sp > best[0]:
-                best = (sp, im, bind)
-    return best
+from ..implsel import find_impl, resolve, specificity, unify  # noqa: E402,F401
 
 
 def _self_paths_in(F, b, alias):
